@@ -68,7 +68,10 @@ ob("NC_varoffset_r3", "C03", entry="h_NC_varoffset3", enforce="NC_varoffset", un
 def va_unwindset(R):
     w = "H4_NCvario"  # not enforced: the function keeps its name
     inner, outer = (4, 2) if R == 2 else (5, 5)  # iteration counts of the ripple counter: see the unit
-    d = {f"{w}.0": R + 2, f"{w}.1": R + 2, f"{w}.2": R + 2, f"{w}.3": inner + 1, f"{w}.4": outer + 1, "NCvcmaxcontig.0": R + 2}
+    # loops of NCvario in goto order: 0 request validation, 1 zero-edge scan, 2 edp, 3 coords init, 4 upper init, 5 inner, 6 outer
+    # (a stale table is harmless: loops not named here fall back to --unwind 16, which is only slower)
+    d = {f"{w}.0": R + 2, f"{w}.1": R + 2, f"{w}.2": R + 2, f"{w}.3": R + 2, f"{w}.4": R + 2, f"{w}.5": inner + 1, f"{w}.6": outer + 1,
+         "NCvcmaxcontig.0": R + 2}
     d.update({f"h_NCvario.{i}": 4 for i in range(5)})
     return ",".join(f"{k}:{v}" for k, v in d.items())
 
